@@ -13,6 +13,9 @@ CLAIMED = {
  'C13': dict(engine='symx', design='4/C13', technique='forking symbolic execution of the real truncation_mask on a spectrum of solver variables (every comparison inside argsort/max/>tol*max is a z3-decided branch); per-path limit/maximality/completeness obligations as unsat queries; *_with_truncation through LAPACK contract stubs',
    text='All orderings, ties and zeros of a k<=4 (thorough 5) value spectrum over all sector compositions are explored as paths of the real code; tol/tol_block are symbolic in (0,1) (incl. per-sector dicts), D_total/D_block enumerated incl. dict and inf. On each path z3 proves: limits respected, kept > tol*max, no discarded value exceeds a kept one competing under the same limit, an eligible value is dropped only when a cap binds, non-binding limits drop only exact zeros. svd/eigh_with_truncation: same indices removed from U,S,V and a - kept == discarded element-wise (contract stubs).',
    note='Trusted: z3 (QF_NRA for tol*s products), LAPACK contracts for part (b). Branch feasibility uses the path condition plus linear assumptions only (over-approximation: sound). Outside: truncate_multiplets heuristics, mask_f, larger spectra.'),
+ 'C04': dict(engine='symx', design='4/C04', technique='symbolic execution of the real svd/qr/eigh pipelines with LAPACK leaf calls replaced by contract stubs (fresh outputs + defining equations); z3 QF_NRA unsat queries for reconstruction, isometry, ordering, sign; pinned rational witness as vacuity guard',
+   text='For catalogue tensors (7 symmetries, rank 2-4, all bipartitions/orders via covering array, sU/sQ, nU, Uaxis/Vaxis/Qaxis/Raxis, zero/non-zero charge, real/complex, lazy/consumed, hard/meta-fused inputs) every input element and every LAPACK output admitted by the contract is a solver variable; z3 proves U S V == a, Q R == a, U S U^H == a, U^H U == I, V V^H == I, Q^H Q == I, S >= 0 and ordered per sector (all four `which` orders for eigh), R upper-triangular with diag >= 0 on every sign-fork path, charge on the selected factor, signature and position of the new leg.',
+   note='Trusted: z3; LAPACK contract (svd/qr/eigh outputs satisfy their defining equations, deterministic). Vacuity excluded per case by an exact rational witness. Outside: eig (non-Hermitian), lowrank/iterative policies, fix_signs, blocks beyond 3x3 (thorough 4x4).'),
 }
 NA = {
  'C09': 'DMRG: outcome of iterated floating-point Krylov eigen-solves and LAPACK sweeps; a contract stub for eigs would assume the conclusion, chained LAPACK contracts need non-linear ideal reasoning z3/cvc5 do not finish (DESIGN 5)',
